@@ -392,8 +392,9 @@ def needGet (e : Enc) (b : SecBuf) (str : Option SecBuf) (num no : BitVec 32) : 
             let depP := strLookup str (vr_name_idx (cv32 e) (veraux_vna_name := nidx))
             -- a name is not inside the string table
             if tq_vr_names_bad fileP.isNone depP.isNone then pure none else
-              let file := fileP.getD []
-              let name := depP.getD []
+            -- `file_name = file; dep_name = dep;` : assigning a null pointer to a std::string is a fault
+            match fileP, depP with
+            | some file, some name =>
               match rd16 "verneed/vn_version" data (vn + Elfxx_Verneed.vn_version_off) with
               | .error er => .error er
               | .ok version =>
@@ -410,6 +411,7 @@ def needGet (e : Enc) (b : SecBuf) (str : Option SecBuf) (num no : BitVec 32) : 
                                    hash := vr_hash (cv32 e) (veraux_vna_hash := hash),
                                    flags := vr_flags (cv16 e) (veraux_vna_flags := flags),
                                    other := vr_other (cv16 e) (veraux_vna_other := other), name })
+            | _, _ => throw (.nullDeref "verneed/file_name = file; dep_name = dep")
 
 /-- the loop of `versym_d_section_accessor::get_entry` -/
 def defLoop (e : Enc) (data : Option Bytes) (size : BitVec 64) (no : BitVec 32) :
@@ -452,7 +454,10 @@ def defGet (e : Enc) (b : SecBuf) (str : Option SecBuf) (num no : BitVec 32) : M
           let depP := strLookup str (vd_name_idx (cv32 e) (verdaux_vda_name := nidx))
           -- the name is not inside the string table
           if tq_vd_names_bad depP.isNone then pure none else
-            let name := depP.getD []
+          -- `dep_name = dep;` : assigning a null pointer to a std::string is a fault
+          match depP with
+          | none => throw (.nullDeref "verdef/dep_name = dep")
+          | some name =>
             match rd16 "verdef/vd_flags" data (vd + Elfxx_Verdef.vd_flags_off) with
             | .error er => .error er
             | .ok flags =>
